@@ -3737,6 +3737,30 @@ def _replace_common_or_components(expr, or_components):
     return outer_component & or_component
 
 
+def _is_order_dependent(expr):
+    from dask_expr._cumulative import (
+        CumulativeAggregations,
+        CumulativeBlockwise,
+        CumulativeFinalize,
+        TakeLast,
+    )
+    from dask_expr._rolling import RollingReduction
+
+    return isinstance(
+        expr,
+        (
+            CumulativeAggregations,
+            CumulativeBlockwise,
+            CumulativeFinalize,
+            TakeLast,
+            MapOverlap,
+            MapOverlapAlign,
+            CreateOverlappingPartitions,
+            RollingReduction,
+        ),
+    )
+
+
 def _check_dependents_are_predicates(
     expr, other_names, parent: Expr, dependents, allow_reduction=True
 ):
@@ -3769,6 +3793,11 @@ def _check_dependents_are_predicates(
         if not allow_reduction:
             if isinstance(e, (ApplyConcatApply, TreeReduce, ShuffleReduce)):
                 return False
+
+        if _is_order_dependent(e):
+            # cumulative, shift/diff/fill and rolling operations look at neighbouring
+            # rows: the predicate changes when rows are removed or reordered below it
+            return False
 
         allowed_expressions.add(e._name)
         stack.extend(e.dependencies())
